@@ -292,7 +292,7 @@ func zzStepKind(k int, classes int) {
 		zz.Freeze(node)
 		zz.FreezeGlobals()
 	} else {
-		before = zzDump(node)
+		before = zzDump(node) + zz.GlobalsDump()
 	}
 	v, err, panicked := zzRunNode(e, node, zzKindCat[k])
 	zz.Drain()
@@ -362,7 +362,7 @@ func zzStepKind(k int, classes int) {
 				}
 			}
 		}
-		zz.Assert(zzDump(node) == before, "C14.F1.tree-and-globals-read-only/"+kind)
+		zz.Assert(zzDump(node)+zz.GlobalsDump() == before, "C14.F1.tree-and-globals-read-only/"+kind)
 	}
 	zz.Assertf(!panicked, "C01.step.no-panic/"+kind, zzPanicMsg)
 	zz.Assert(zz.GoroutineCrashes() == 0, "C01.step.no-goroutine-crash/"+kind)
